@@ -281,10 +281,22 @@ fn c01_long_repetitive_programs_terminate() {
         ("hash the previous hash", vec![0x36, 0x5f, 0x52], vec![0x60, 0x20, 0x5f, 0x20, 0x5f, 0x52], vec![0x5f, 0x51, 0x5f, 0x55, 0x00]),
         ("nested mapping of the previous slot", vec![0x5f], vec![0x5f, 0x52, 0x33, 0x60, 0x20, 0x52, 0x60, 0x40, 0x5f, 0x20], vec![0x60, 0x01, 0x90, 0x55, 0x00]),
         ("dup-add growth", vec![0x36], vec![0x80, 0x01], vec![0x5f, 0x55, 0x00]),
+        // every one-operand instruction applied to its own result, over and over (the result is stored at the end)
+        ("ISZERO chain", vec![0x36], vec![0x15], vec![0x5f, 0x55, 0x00]),
+        ("NOT chain", vec![0x36], vec![0x19], vec![0x5f, 0x55, 0x00]),
+        ("BALANCE chain", vec![0x36], vec![0x31], vec![0x5f, 0x55, 0x00]),
+        ("CALLDATALOAD chain", vec![0x36], vec![0x35], vec![0x5f, 0x55, 0x00]),
+        ("EXTCODESIZE chain", vec![0x36], vec![0x3b], vec![0x5f, 0x55, 0x00]),
+        ("EXTCODEHASH chain", vec![0x36], vec![0x3f], vec![0x5f, 0x55, 0x00]),
+        ("BLOCKHASH chain", vec![0x36], vec![0x40], vec![0x5f, 0x55, 0x00]),
+        ("MLOAD chain", vec![0x36], vec![0x51], vec![0x5f, 0x55, 0x00]),
+        // (an SLOAD chain is left out: each link DOUBLES the value — recorded finding D29 — so 30 links would run for hours; c18 measures it on 8 links)
+        ("CREATE2 of its own result as the salt", vec![0x36], vec![0x5f, 0x5f, 0x5f, 0xf5], vec![0x5f, 0x55, 0x00]),
     ];
     let mut cases = 0;
     for (name, pro, block, epi) in fams {
-        for reps in [50usize, 800, (24000 - pro.len() - epi.len()) / block.len()] {
+        let longest = (24000 - pro.len() - epi.len()) / block.len();
+        for reps in [50usize, 800, longest] {
             let mut code = pro.clone();
             for _ in 0..reps { code.extend(&block); }
             code.extend(&epi);
